@@ -25,6 +25,14 @@ PRODS = {
     'F': ['{F} + {F}', '{F} * {I}', '{I} / {F}', '{F} - {I}', '-{F}', '{I} ** {I}', '{B} ? {F} : {F}'],
 }
 # results that are not one of the five types are produced only at the top
+# nested collections, string collections, float / dynamic needles (shapes that need a richer environment)
+RICH = [
+    'map(Xss, {count(#, {# > A})})', 'map(Xss, {len(#)})', 'filter(Xss, {any(#, {Pf(#)})})', 'any(Xss, {none(#, {# == A})})', 'map(Xss, {map(#, {# + A})})',
+    'count(Xss, {one(#, {Pf(#)})})', 'map(Xss, {filter(#, {# > A})})', 'map(Xss, {#[0]})', 'all(Xss, {len(#) > 0 and #[0] > A})', 'map(Xss, {all(#, {Qf(#, A)})})',
+    'map(Ss, {S matches #})', 'filter(Ss, {# matches "^a"})', 'count(Ss, {S contains #})', 'map(Ss, {# + S})', 'S in Ss', 'any(Ss, {# == S})', 'map(Ss, {T matches #})', 'Ss[A]', 'len(Ss)',
+    'F in Xs', 'F in 1..3', 'F in [1, 2]', '1.5 in Xs', 'F not in Ys', 'count(Xs, {F in Ys})', 'filter(Xs, {# in [F, 1.5]})', 'F in A..B',
+    'Any in [1, 2, 3]', 'Any == 1', 'Any in Xs', 'Any in 1..3', 'Any == nil', 'Any in ["a", "b"]', 'Any != A',
+]
 TOP_EXTRA = ['Ptr?.V', 'Ptr?.Next?.V', 'Ptr.Next', '[{I}, {B}]', '{{a: {I}, b: {S}}}', '{L}', '{S}[{I}]', 'M', 'nil', '{B} ? {I} : nil', '{I}..{I}', 'I64 + {I}', 'U8 + {I}', 'U8 * U8', 'I64 / {I}', '-U8', 'U8 == {I}', 'I64 < {F}',
              'FnU8(U8)', 'FnI64(I64)', 'FnF({F})', 'map({L}, {{[#, {I}]}})', 'map({L}, {{# > {I} ? # : nil}})']
 ATOMS = {'I': ['A', 'B', '3', '0'], 'B': ['P', 'Q', 'true'], 'S': ['S', 'T', '"a"'], 'L': ['Xs', 'Ys', '1..3'], 'F': ['F', '1.5']}
@@ -90,6 +98,8 @@ def gen(budget, quick=False):
     for t, p in allp:
         for s in depth1(p, variants=2):
             add(s)
+    for s in RICH:
+        add(s)
     if budget >= 2:
         for t, p in allp:
             hs = holes(p)
@@ -135,7 +145,9 @@ C02_TEMPLATES = [
     '"a" + "b"', '"a" + "b" + S', '[1, 2, 3]', '["a", "b"]', '[1, 2, 3][A]', '["a", "b"][A]', '[1, 2, A]', 'len([1, 2, 3])', '[1 + 1, 2]',
     'FnU8(200 + 100)', 'FnU8(256 / 2)', 'FnU8(2 * 3)', 'FnU8(-1)', 'FnU8(7 % 3)', 'FnU8(2 ** 3 > 7 ? 1 : 2)', 'FnF(1 / 2)', 'FnF(7 / 2 * 2)', 'FnF(3)', 'FnF(-3)', 'FnF(2 + 3)', 'FnI64(2 * 3)', 'FnI64(7 / 2)', 'FnI64(1 - 2)',
     'Fn(2 + 3)', 'Fn(7 / 2)', 'Gn(1 + 1, 2 * 2)', 'U8 + 2 * 3', 'F + 1 / 2', 'I64 == 2 + 3', 'F * (7 / 2)', 'U8 == 200 + 100',
+    'F + 1 + 2', 'A + 1 + 2', 'U8 + 200 + 100', 'S + "a" + "b"', 'I64 + 1 + 2', 'F - 1 - 2', 'F * 2 * 3', 'A * 2 * 3', '1 + F + 2', '1 + 2 + F',
     # inArray
+    'Any in [1, 2, 3]', 'Any not in [1, 2]', 'Any in ["a", "b"]', 'Any in 1..3', 'Any in [1]',
     'A in [1, 2, 3]', 'A not in [1, 2]', 'U8 in [1, 2, 3]', 'I64 in [1, 2]', 'F in [1, 2]', 'S in ["a", "b"]', 'S not in ["a"]', 'nil in [1, 2]', 'Ptr in [1, 2]',
     'P in [1, 2]', 'A in [1, "a"]', 'M.a in [1, 2]', 'Ptr?.V in [1, 2]', 'Fn(A) in [1, 2]', '(A + 1) in [1, 2]', 'A in [1, 1]', 'S in ["a", "a"]', 'Xs[0] in [1, 2]', 'A in []',
     '1 in [1, 2]', '"a" in ["a"]', 'A in [2 - 1, 2]',
@@ -165,6 +177,10 @@ C18_MAP_IDS = [
     ('map({C}, {{{f}}})', '', 1),
 ]
 C18_NESTED = [
+    'map(Xs, {all(Ys, {Qf(#, 1)})})', 'map(Xs, {none(Ys, {Qf(#, 1)})})', 'map(Xs, {any(Ys, {Qf(#, 1)})})', 'map(Xs, {one(Ys, {Qf(#, 1)})})', 'map(Xs, {count(Ys, {Qf(#, 1)})})',
+    'filter(Xs, {none(Ys, {Qf(#, A)})})', 'count(Xs, {all(Ys, {Qf(#, A)})})', 'any(Xs, {none(Ys, {Qf(#, A)})})', 'all(Xs, {any(Ys, {Qf(#, A)})})', 'one(Xs, {all(Ys, {Qf(#, A)})})', 'none(Xs, {one(Ys, {Qf(#, A)})})',
+    'any(Xss, {none(#, {# == A})})', 'map(Xss, {count(#, {Pf(#)})})', 'filter(Xss, {all(#, {Pf(#)})})', 'map(Xss, {filter(#, {Pf(#)})})',
+
     'map(Xs, {map(Ys, {Qf(#, 0)})})', 'filter(Xs, {any(Ys, {Qf(#, 1)})})', 'map(Xs, {count(Ys, {Qf(#, A)}) + #})',
     'map(Xs, {map(Ys, {count(Xs, {Qf(#, 2)})})})', 'count(Xs, {all(Ys, {Qf(#, 3)}) and Pf(#)})', 'map(Xs, {Pf(#) ? map(Ys, {Fn(#)}) : [#]})',
     'map(Xs, {filter(Ys, {Pf(#)})})', 'one(Xs, {one(Ys, {one(Xs, {Qf(#, 4)})})})', 'map(Xs, {[#, any(Ys, {Pf(#)}), #]})',
@@ -190,6 +206,8 @@ def c18(quick, seed=0):
     for s in C18_NESTED:
         out.append((s, '', 1))
     for x in ['A', 'A + B', 'Xs[0]', 'Fn(A)']:
+        out.append(('%s in 1..3' % x, '(%s) >= 1 and (%s) <= 3' % (x, x), 0))
+        out.append(('%s not in 0..2' % x, 'not ((%s) >= 0 and (%s) <= 2)' % (x, x), 0))
         out.append(('%s in B..3' % x, '(%s) >= B and (%s) <= 3' % (x, x), 0))
         out.append(('%s not in 1..B' % x, 'not ((%s) >= 1 and (%s) <= B)' % (x, x), 0))
     for c in colls + ['S', 'map(Xs, {Fn(#)})', 'S + T']:
@@ -202,3 +220,7 @@ C04_SOURCES = ['A + B', 'A + S', 'Foo', 'A.B', 'Fn()', 'Fn(S)', 'Fn(A)', 'not A'
                'A ? 1 : 2', '[1, 2][S]', '{a: 1}.b', 'M.zz', 'Xs[1:S]', 'S matches "["', 'S matches T', '1 / 0', 'A % 0', 'Fn', 'Twice', 'Twice(2)', 'Twice(A)', 'Ptr.V.X', 'X + 1',
                'P ? nil : 1', 'nil == nil', 'Xs[A]', 'S[A:B]', 'A in M', '1 in M', 'P and A', 'count(Xs, {#})', 'filter(Xs, {# > A})', '1 + 2', '-nil', 'Ptr.Next.V', 'Add(A, B)', 'A + 1.5',
                '{(A): 1}', '[nil, A][0].V', 'S.x', 'M[A]', 'Xs["a"]', 'Fn(1 + 1.5)', 'P ? Ptr : nil', 'len(nil)', 'nil in nil', '1..A', 'Xs[:]']
+
+
+C02_CONSTEXPR = ['Pure(2) + A', 'P ? Pure(2) : A', 'Lvl(2)', 'Lvl(2) == Lvl(3)', 'Pure(Pure(1))', 'Pure(1 + 2)', '[Pure(1), Pure(2)][A]', 'Pure(A)', 'Cat("a", "b")', 'Cat("a", "b") + "c"',
+                 'Lvl(2).String()', '[Lvl(1)][0]', 'I8(300)', 'I8(1) + A', 'Pure(2) in [Pure(2), 3]', 'P and Pure(3) > A', 'Pure(2) == Pure(2)', 'Lvl(Pure(1))']
